@@ -241,9 +241,8 @@ Definition frame_ok (fs : fields) : bool :=
    header ++ client trailer *)
 Definition fail_obs (code sent : Z) (trl : mdt) : word :=
   [code; 0; sent; 0] ++ dump [] ++ dump [] ++ dump trl.
-Definition rpc (auth : str) (mode : Z) (md : mdt) (calls : list kvs) (h t : mdt) : word :=
-  let added := map lowkv calls in                      (* AppendToOutgoingContext *)
-  if negb (validate_out md added) then fail_obs 13 0 [] else
+(* everything after newClientStream's validation: the attempt's context carries (md, added) *)
+Definition rpc_sent (auth : str) (mode : Z) (md : mdt) (added : list kvs) (h t : mdt) : word :=
   match srv_collect (request_fields auth md added) with
   | SRst => fail_obs 13 1 []
   | SEarly code => fail_obs code 1 [(n_content_type, [ct_grpc])]
@@ -264,6 +263,20 @@ Definition rpc (auth : str) (mode : Z) (md : mdt) (calls : list kvs) (h t : mdt)
                 end
          end
   end.
+Definition rpc (auth : str) (mode : Z) (md : mdt) (calls : list kvs) (h t : mdt) : word :=
+  let added := map lowkv calls in                      (* AppendToOutgoingContext *)
+  if negb (validate_out md added) then fail_obs 13 0 [] else rpc_sent auth mode md added h t.
+
+(* the LB picker returned PickResult.Metadata = p (non-nil): csAttempt.newStream validates p,
+   replaces the attempt's outgoing metadata by Join(FromOutgoingContext(ctx), p) installed
+   with NewOutgoingContext, and takes the :authority override from p (gRFC A81) *)
+Definition rpc_pick (auth : str) (mode : Z) (md : mdt) (calls : list kvs) (h t p : mdt) : word :=
+  let added := map lowkv calls in
+  if negb (validate_out md added) then fail_obs 13 0 [] else
+  if negb (validate_md p) then fail_obs 13 0 [] else
+  let merged := join [from_out md added; p] in
+  let auth' := match getd n_authority p with v :: _ => v | [] => auth end in
+  rpc_sent auth' mode merged [] h t.
 
 (* ---- the property's reference ---- *)
 Definition pairs_of (md : mdt) : kvs := flat_map (fun e => map (fun v => (fst e, v)) (snd e)) md.
@@ -311,6 +324,12 @@ Definition raw_decoded (extra : fields) : kvs :=
                      else match decode_hdr (fst f) (snd f) with Some v => [(fst f, v)] | None => [] end) extra.
 Definition raw_expect (auth : str) (extra : fields) : word :=
   [1; 0] ++ dump (transport_md auth ++ group (raw_decoded extra)).
+
+(* reference for the pick-metadata case: what is sent is Join(FromOutgoingContext(ctx), p), with
+   FromOutgoingContext given by C28's reference multimap [spec_md] *)
+Definition pick_merged (md : mdt) (calls : list kvs) (p : mdt) : mdt := join [spec_md md calls; p].
+Definition pick_auth (auth : str) (p : mdt) : str :=
+  match getd n_authority p with v :: _ => v | [] => auth end.
 
 (* ---- operations ---- *)
 Fixpoint get_calls (n : nat) (w : word) : option (list kvs * word) :=
@@ -368,13 +387,45 @@ Definition decode_op (w : word) : option rpcop :=
     end
   | _ => None
   end.
+(* op [3; mode; md; ncalls; kvs...; H; T; P] *)
+Definition decode_pick (w : word) : option (rpcop * mdt) :=
+  match w with
+  | 3 :: mode :: r =>
+    match get_md r with
+    | Some (md, n :: r1) =>
+      if (n <? 0) || (mode <? 0) || (mode >? 3) then None else
+      match get_calls (Z.to_nat n) r1 with
+      | Some (calls, r2) =>
+        match get_md r2 with
+        | Some (h, r3) => match get_md r3 with
+                          | Some (t, r4) => match get_md r4 with
+                                            | Some (p, []) => Some (mkop mode md calls h t, p)
+                                            | _ => None
+                                            end
+                          | None => None
+                          end
+        | None => None
+        end
+      | None => None
+      end
+    | _ => None
+    end
+  | _ => None
+  end.
 Definition get_auth (cfg : word) : option str :=
   match get_bytes cfg with Some (a, []) => Some a | _ => None end.
 
 Definition run_op (auth : str) (w : word) : option word :=
   match decode_op w with
   | Some o => Some (rpc auth (o_mode o) (o_md o) (o_calls o) (o_h o) (o_t o))
-  | None => match decode_raw w with Some extra => Some (raw_rpc auth extra) | None => None end
+  | None =>
+    match decode_raw w with
+    | Some extra => Some (raw_rpc auth extra)
+    | None => match decode_pick w with
+              | Some (o, p) => Some (rpc_pick auth (o_mode o) (o_md o) (o_calls o) (o_h o) (o_t o) p)
+              | None => None
+              end
+    end
   end.
 Fixpoint run_ops (auth : str) (ops : list word) : option (list word) :=
   match ops with
@@ -406,22 +457,34 @@ Definition run (cfg : word) (ops : list word) : option (list word) :=
    0  malformed case *)
 Definition server_md_ok (m : mdt) : bool :=
   validate_md m && nodupb (keys m).
+Definition clause_rpc (auth : str) (i : Z) (o : rpcop) (obs : word) : Z * Z * bool :=
+  if negb (valid_user (o_md o) (o_calls o)) then
+    (3, i, match obs with 13 :: 0 :: 0 :: _ => true | _ => false end)
+  else if has_hop (o_md o) (o_calls o) then
+    (95, i, word_eqb obs (expect_ok auth (o_md o) (o_calls o) (o_h o) (o_t o)))
+  else if validate_md (o_h o) && validate_md (o_t o) then
+    (1, i, word_eqb obs (expect_ok auth (o_md o) (o_calls o) (o_h o) (o_t o)))
+  else
+    (if negb (o_mode o =? 0) && negb (validate_md (o_h o)) then 6 else 96, i,
+     match obs with 13 :: 1 :: 1 :: 13 :: _ => true | _ => false end).
 Definition clause_op (auth : str) (i : Z) (w obs : word) : Z * Z * bool :=
   match decode_op w with
-  | None => match decode_raw w with
-            | Some extra => (7, i, if raw_plain extra then word_eqb obs (raw_expect auth extra) else true)
-            | None => (0, i, false)
-            end
-  | Some o =>
-    if negb (valid_user (o_md o) (o_calls o)) then
-      (3, i, match obs with 13 :: 0 :: 0 :: _ => true | _ => false end)
-    else if has_hop (o_md o) (o_calls o) then
-      (95, i, word_eqb obs (expect_ok auth (o_md o) (o_calls o) (o_h o) (o_t o)))
-    else if validate_md (o_h o) && validate_md (o_t o) then
-      (1, i, word_eqb obs (expect_ok auth (o_md o) (o_calls o) (o_h o) (o_t o)))
-    else
-      (if negb (o_mode o =? 0) && negb (validate_md (o_h o)) then 6 else 96, i,
-       match obs with 13 :: 1 :: 1 :: 13 :: _ => true | _ => false end)
+  | Some o => clause_rpc auth i o obs
+  | None =>
+    match decode_raw w with
+    | Some extra => (7, i, if raw_plain extra then word_eqb obs (raw_expect auth extra) else true)
+    | None =>
+      match decode_pick w with
+      | Some (o, p) =>
+        (* pick metadata: invalid application or pick metadata => INTERNAL before sending;
+           otherwise the RPC carries Join(FromOutgoingContext, p) and nothing else *)
+        if negb (valid_user (o_md o) (o_calls o) && validate_md p) then
+          (3, i, match obs with 13 :: 0 :: 0 :: _ => true | _ => false end)
+        else clause_rpc (pick_auth auth p) i
+               (mkop (o_mode o) (pick_merged (o_md o) (o_calls o) p) [] (o_h o) (o_t o)) obs
+      | None => (0, i, false)
+      end
+    end
   end.
 Fixpoint clauses_from (auth : str) (i : Z) (ops obs : list word) : list (Z * Z * bool) :=
   match ops, obs with
